@@ -57,25 +57,34 @@ pub fn data_bytes(class: &str) -> Option<Binary> {
         "empty_env" => Some(Binary::from(Vec::<u8>::new())),
         "bad_env" => Some(Binary::from(vec![0xff, 0xff, 0xff])),
         "bare_json" => Some(Binary::from(good_json)),
+        // an execute envelope whose JSON has an unknown member with a long name of three-byte characters after 0..3 one-byte
+        // characters: whatever byte offset an error text about it is cut at, one of the four has a character straddling it
+        c if c.starts_with("bad_json_u") => {
+            let pad = "a".repeat(c[10..].parse::<usize>().unwrap_or(0));
+            let j = format!("{{\"{}{}\":1}}", pad, "\u{6570}".repeat(80));
+            Some(Binary::from(crate::chain::proto_field(0x0a, j.as_bytes())))
+        }
         "bad_json" => Some(Binary::from(proto_bytes_field(0x0a, b"not json"))),
         _ => None,
     }
 }
 
 fn events(n: u64) -> Vec<Event> {
-    (0..n).map(|i| Event::new(format!("ev{i}")).add_attribute("k", format!("v{i}"))).collect()
+    // (like the events of a real chain every event carries an attribute with a reserved, underscore-prefixed key)
+    (0..n).map(|i| Event::new(format!("ev{i}")).add_attribute("_contract_address", format!("c{i}")).add_attribute("k", format!("v{i}"))).collect()
 }
 
 fn resp_json(r: &Result<Response, Value>) -> Value {
     match r {
         Ok(resp) => {
             let evs: Vec<Value> = resp.events.iter().map(|e| json!(e.ty)).collect();
+            let evs_full: Vec<Value> = resp.events.iter().map(|e| json!({"ty": e.ty, "attrs": e.attributes.iter().map(|a| json!([a.key, a.value])).collect::<Vec<_>>()})).collect();
             let attrs: Vec<Value> = resp.attributes.iter().map(|a| json!([a.key, a.value])).collect();
             let data = resp.data.as_ref().map(|d| d.to_base64()).unwrap_or_default();
-            json!({"verdict":"ok","attrs":attrs,"events":evs,"has_data":resp.data.is_some(),"data":data,"msgs":resp.messages.len(),
+            json!({"verdict":"ok","attrs":attrs,"events":evs,"events_full":evs_full,"has_data":resp.data.is_some(),"data":data,"msgs":resp.messages.len(),
                    "err":{"class":"","code":0,"text":""}})
         }
-        Err(e) => json!({"verdict":"err","attrs":[],"events":[],"has_data":false,"data":"","msgs":0,"err":e}),
+        Err(e) => json!({"verdict":"err","attrs":[],"events":[],"events_full":[],"has_data":false,"data":"","msgs":0,"err":e}),
     }
 }
 
